@@ -17,6 +17,7 @@ import (
 	"flag"
 	"fmt"
 	"os"
+	"time"
 
 	"github.com/koron-go/z80"
 )
@@ -72,10 +73,10 @@ func (m *Machine) Rebuild() {
 		n.d = src.d
 		inner = n
 	}
-	m.Mem = &RecMem{Inner: inner}
+	m.Mem = &RecMem{Inner: inner, Acc: &m.Acc}
 	cpu := &z80.CPU{States: old.States, Memory: m.Mem, HALT: old.HALT}
 	if m.IO != nil {
-		nio := &RecIO{Desc: m.IO.Desc}
+		nio := &RecIO{Desc: m.IO.Desc, Acc: &m.Acc, nin: m.IO.nin}
 		if d, ok := m.IO.Inner.(z80.DumbIO); ok {
 			n := make(z80.DumbIO, len(d))
 			copy(n, d)
@@ -102,6 +103,10 @@ func (m *Machine) Rebuild() {
 
 func playScenario(sc *Scenario, w *bufio.Writer) {
 	is := sc.Init.Spec()
+	if len(sc.Ops) == 1 && string(sc.Ops[0]) == `"pair"` {
+		EmitPair(is, w)
+		return
+	}
 	m := NewMachine(is)
 	EmitInit(w, is)
 	for _, raw := range sc.Ops {
@@ -118,7 +123,22 @@ func playScenario(sc *Scenario, w *bufio.Writer) {
 				json.Unmarshal(op[1], &n)
 			}
 			for i := 0; i < n; i++ {
-				m.StepAndEmit(w)
+				if !safeStep(m, w) {
+					return
+				}
+			}
+		case "f": // feed: place instruction bytes at the current PC, then Step
+			var code []int
+			json.Unmarshal(op[1], &code)
+			var cells [][2]int
+			for i, b := range code {
+				a := m.CPU.PC + uint16(i)
+				m.Mem.Inner.Set(a, uint8(b))
+				cells = append(cells, [2]int{int(a), b})
+			}
+			EmitPoke(w, cells)
+			if !safeStep(m, w) {
+				return
 			}
 		case "q":
 			var p []int
@@ -132,6 +152,14 @@ func playScenario(sc *Scenario, w *bufio.Writer) {
 				m.Mem.Inner.Set(uint16(c[0]), uint8(c[1]))
 			}
 			EmitPoke(w, cells)
+		case "r":
+			var rs RunSpec
+			if len(op) > 1 {
+				json.Unmarshal(op[1], &rs)
+			}
+			if !m.RunAndEmit(w, &rs, 10*time.Second) {
+				return
+			}
 		case "snap":
 			m.Rebuild()
 		default:
